@@ -179,23 +179,16 @@ def r4(ctx):
                 p, hits = guard_check(f, nodes_with(f, c), notnone)
                 ctx.check("C17.R4", p is None, key(f, "guarded|" + c.func.attr), site(f, c), "`%s` without `self.pidfile is not None`" % txt, "behind `is not None`", path=p and f.cfg.fmt_path(p))
     ctx.floor("C17.R4", "pidfile unlink/rename sites in the arbiter", n, 2)
-    # reload: unlink old, create new under the (possibly new) configured name
+    # reload: the order of unlink/create is NOT constrained any more: since fix D18 (create() records the pid also when the
+    # file is already ours) "create first, unlink the old file only if its path differs" is behaviour-preserving; the two
+    # seeded changes that exploited the old latent defect (C04-1, C04-r2-1) no longer break the property.  What remains
+    # checked: reload re-creates the pid file through the Pidfile API under the configured name.
     f = ctx.fn(repo.func(ARB + ".reload"))
     g = f.cfg
-    u = [nn for c in method_calls(f, "unlink") if tail(c.func.value) == "pidfile" for nn in nodes_with(f, c)]
     cr = [nn for c in method_calls(f, "create") if tail(c.func.value) == "pidfile" for nn in nodes_with(f, c)]
-    ctx.check("C17.R4", bool(u) and bool(cr) and all(any(x in g.reachable([a], follow_exc=False) for x in cr) for a in u) and not any(x in g.reachable([b], follow_exc=False) for b in cr for x in u), key(f, "reload-unlink-then-create"), site(f),
-              "reload does not release the old pid file before creating the new one", "unlink then create")
-    if u and cr:
-        def nopid(e):
-            cc = compare(e)
-            if cc and isinstance(cc[0], ast.Attribute) and cc[0].attr == "pidfile" and tail(cc[0].value) == "self" and isinstance(cc[2], ast.Constant) and cc[2].value is None:
-                return -1 if cc[1] in (ast.Is, ast.Eq) else +1      # C = 'an old pid file object exists'; its false edge needs no unlink
-            return None
-        p, hits = guard_check(f, cr, nopid, without_nodes=u)
-        ctx.check("C17.R4", p is None, key(f, "reload-always-releases-old"), site(f, cr[0]),
-                  "reload can create the new pid file while the old one is still in place (unlink is conditional): create() then finds its own pid, returns early and the file is never removed at exit",
-                  "old pid file unlinked on every path to create", path=p and g.fmt_path(p))
+    ctor = [c for c in calls_to(repo, f, "gunicorn.pidfile.Pidfile")]
+    ctx.check("C17.R4", bool(cr) and bool(ctor) and all(cfg_attr(c.args[0]) == "pidfile" for c in ctor) and all("self.pid" in n.text for n in cr), key(f, "reload-recreates"), site(f),
+              "reload does not re-create the pid file under cfg.pidfile with the master's pid", "Pidfile(cfg.pidfile).create(self.pid)")
     # crash path of run() releases the pid file
     fr = ctx.fn(repo.func(ARB + ".run"))
     hs = [h for h in walk_own(fr.node) if isinstance(h, ast.ExceptHandler) and h.type is not None and norm(h.type) == "Exception"]
